@@ -359,7 +359,14 @@ public:
         constexpr Index max_iter_per_row = 40;
         const Index max_iter = m_n * max_iter_per_row;
 
-        m_T.noalias() = mat;
+        // Scale the matrix so that the products of entries formed by the
+        // iteration neither overflow nor underflow (as Eigen's RealSchur does)
+        const Scalar scale = mat.cwiseAbs().maxCoeff();
+        const bool rescale = (scale > Scalar(0)) && (Eigen::numext::isfinite)(scale);
+        if (rescale)
+            m_T.noalias() = mat / scale;
+        else
+            m_T.noalias() = mat;
         m_U.setIdentity();
 
         // The matrix m_T is divided in three parts.
@@ -414,6 +421,9 @@ public:
 
         if (total_iter > max_iter)
             throw std::runtime_error("UpperHessenbergSchur: Schur decomposition failed");
+
+        if (rescale)
+            m_T *= scale;
 
         m_computed = true;
     }
